@@ -50,6 +50,14 @@ func TestReplay(t *testing.T) {
 		if p == nil {
 			t.Fatalf("replay %s: unknown property %q", f, env.Property)
 		}
+		// a history envelope: the earlier calls are made first, in this process, whatever they return
+		for i, h := range env.History {
+			hc := p.New()
+			if err := json.Unmarshal(h, hc); err != nil {
+				t.Fatalf("replay %s: history entry %d: %v", f, i, err)
+			}
+			runCase(p, hc, nil)
+		}
 		c := p.New()
 		if err := json.Unmarshal(env.Case, c); err != nil {
 			t.Fatalf("replay %s: %v", f, err)
